@@ -3,7 +3,7 @@
    positive, nat stay Coq datatypes. No Extract Constant of our own. *)
 Require Extraction.
 Require ExtrOcamlBasic.
-From Lospan Require Import Base.Bytes Base.AES Base.Outcome Gen.Consts Model.CMAC Model.FrameTypes Model.Crypto Model.MacCmd Model.Frame Model.Join Model.Store Model.Server
+From Lospan Require Import Base.Bytes Base.AES Base.Outcome Gen.Consts Model.CMAC Model.FrameTypes Model.Crypto Model.MacCmd Model.Frame Model.Join Model.Store Model.Server Model.Gateway
   Spec.RFC4493 Spec.MacLayout Spec.LoRaFrame Spec.RefDevice.
 Extraction Language OCaml.
 Extraction "lospan_model.ml"
@@ -14,4 +14,5 @@ Extraction "lospan_model.ml"
   decode encode mk_slice new_phy spec_decode spec_cmds spec_set s_adr s_adrackreq s_ack s_fpending s_is_data s_uplink cmd_payload_dec
   rx_event submit encode_message encode_join_accept encode_join_request decode_join_accept nwkskey_from_nonces appskey_from_nonces
   dt_by_eui dt_by_devaddr dt_get dt_put key_empty max_payload
+  gw_unmarshal gw_marshal gw_step encode_and_send key_present lookup_frequency authorised
   ref_uplink ref_on_downlink ref_join_request ref_on_join_accept ref_mic ref_crypt mic4.
